@@ -267,7 +267,7 @@ def u2fMockErr (_ : Nat) : String := "27013"   -- unused: per-method codes below
 def genCall1 (arms : List Arm) (rpcOk : Bool) (version : String) (entry variant fail : String) : String :=
   if entry = "rpc" ∧ !rpcOk then "panic"
   else
-    let errShow (_ : Nat) : String := if fail = "register" then "27013" else "27264"   -- 0x6985 / 0x6A80
+    let errShow (_ : Nat) : String := "same"   -- the status the handler returned, unchanged
     showDispatch false [] (dispatch arms (mockBehaviour fail) variant ()) errShow
       (if variant = "Version" then " " ++ toHex version.toUTF8.toList else "")
 
